@@ -37,6 +37,7 @@ type Gen struct {
 	time     int64
 	nextEvt  map[string]uint64
 	extH     map[string]uint64
+	pair     [2]string // (event type, mutated field) of the hash pair being emitted
 }
 
 type tokSpec struct {
@@ -496,6 +497,10 @@ func runProfile(g *Gen, profile string, nops int) {
 		g.runVotes(nops)
 	case "oracle":
 		g.runOracle(nops)
+	case "abi":
+		g.runAbi(nops)
+	case "hash":
+		g.runHash(nops)
 	default:
 		fmt.Println("unknown profile", profile)
 		os.Exit(2)
@@ -791,4 +796,216 @@ func (g *Gen) runOracle(nops int) {
 	}
 	g.do("oend")
 	g.do("dump oracle")
+}
+
+// ---------------------------------------------------------------- abi profile (C07)
+
+func (g *Gen) randAddr() string {
+	b := make([]byte, 20)
+	g.rng.Read(b)
+	return ethHex(b)
+}
+
+func (g *Gen) randU256() *big.Int {
+	switch g.rng.Intn(6) {
+	case 0:
+		return big.NewInt(int64(g.rng.Intn(3)))
+	case 1:
+		return new(big.Int).Sub(new(big.Int).Lsh(big.NewInt(1), 256), big.NewInt(1))
+	case 2:
+		return new(big.Int).Lsh(big.NewInt(1), uint(g.rng.Intn(256)))
+	default:
+		b := make([]byte, 1+g.rng.Intn(32))
+		g.rng.Read(b)
+		return new(big.Int).SetBytes(b)
+	}
+}
+
+func (g *Gen) randU64() uint64 {
+	switch g.rng.Intn(6) {
+	case 0:
+		return uint64(g.rng.Intn(3))
+	case 1:
+		return ^uint64(0) - uint64(g.rng.Intn(8))
+	case 2:
+		return uint64(1)<<63 + uint64(g.rng.Intn(3)) - 1
+	default:
+		return g.rng.Uint64() >> uint(g.rng.Intn(64))
+	}
+}
+
+func (g *Gen) runAbi(nops int) {
+	r := g.rng
+	g.env = NewEnv(false)
+	g.do("reset")
+	gids := []string{"defaultgravityid", "g", "0123456789abcdef0123456789abcdef", "mhub-2", "0123456789abcdef0123456789abcdefX"}
+	for i := 0; i < nops; i++ {
+		gid := gids[r.Intn(len(gids))]
+		if r.Intn(2) == 0 {
+			n := r.Intn(8)
+			if r.Intn(10) == 0 {
+				n = 20 + r.Intn(30)
+			}
+			var ms []string
+			for j := 0; j < n; j++ {
+				ms = append(ms, fmt.Sprintf("%s:%d", g.randAddr(), g.randU64()))
+			}
+			m := "-"
+			if len(ms) > 0 {
+				m = strings.Join(ms, ",")
+			}
+			g.do(fmt.Sprintf("ckpt_set %s %d %s", gid, g.randU64(), m))
+		} else {
+			n := r.Intn(6)
+			if r.Intn(10) == 0 {
+				n = 100
+			}
+			var txs []string
+			for j := 0; j < n; j++ {
+				txs = append(txs, fmt.Sprintf("%s:%s:%s", g.randU256(), g.randAddr(), g.randU256()))
+			}
+			t := "-"
+			if len(txs) > 0 {
+				t = strings.Join(txs, ";")
+			}
+			g.do(fmt.Sprintf("ckpt_batch %s %d %d %s %s", gid, g.randU64(), g.randU64(), g.randAddr(), t))
+		}
+		if r.Intn(5) == 0 {
+			d := make([]byte, 32)
+			r.Read(d)
+			g.do("ethmsg " + hex.EncodeToString(d))
+		}
+	}
+}
+
+// ---------------------------------------------------------------- hash profile (C14)
+
+// runHash emits `hash <event>` for pairs of admissible events of one type and nonce that differ in
+// exactly one field, and for pairs whose variable-length fields are shifted across a boundary.
+func (g *Gen) runHash(nops int) {
+	r := g.rng
+	g.env = NewEnv(false)
+	g.do("reset")
+	acc := func() string { b := make([]byte, 20); r.Read(b); return hex.EncodeToString(b) }
+	txh := func() string { return fmt.Sprintf("0x%x", r.Uint64()) }
+	for i := 0; i < nops; i++ {
+		n := 1 + r.Intn(1000)
+		h := 1 + r.Intn(100000)
+		amt := g.bigAmount()
+		if amt.Sign() == 0 {
+			amt = big.NewInt(7)
+		}
+		switch r.Intn(4) {
+		case 0: // sth
+			f := []string{"sth", fmt.Sprint(n), g.randAddr(), amt.String(), g.randAddr(), acc(), fmt.Sprint(h), txh()}
+			g.do("hash " + strings.Join(f, " "))
+			k := 1 + r.Intn(7)
+			m := append([]string{}, f...)
+			switch k {
+			case 1:
+				m[1] = fmt.Sprint(n + 1)
+			case 2:
+				m[2] = g.randAddr()
+			case 3:
+				m[3] = new(big.Int).Add(amt, big.NewInt(1)).String()
+			case 4:
+				m[4] = g.randAddr()
+			case 5:
+				m[5] = acc()
+			case 6:
+				m[6] = fmt.Sprint(h + 1)
+			case 7:
+				m[7] = txh()
+			}
+			g.pair = [2]string{"sth", []string{"", "nonce", "coin", "amount", "sender", "receiver", "height", "txhash"}[k]}
+			g.do("hash " + strings.Join(m, " "))
+		case 1: // ttc
+			coin := g.randAddr()
+			f := []string{"ttc", fmt.Sprint(n), coin, amt.String(), "5", g.randAddr(), "bsc", g.randAddr(), fmt.Sprint(h), txh()}
+			g.do("hash " + strings.Join(f, " "))
+			k := 1 + r.Intn(9)
+			m := append([]string{}, f...)
+			switch k {
+			case 1:
+				m[1] = fmt.Sprint(n + 1)
+			case 2:
+				m[2] = g.randAddr()
+			case 3:
+				m[3] = new(big.Int).Add(amt, big.NewInt(1)).String()
+			case 4:
+				m[4] = "6"
+			case 5:
+				m[5] = g.randAddr()
+			case 6:
+				m[6] = "minter"
+			case 7:
+				m[7] = g.randAddr()
+			case 8:
+				m[8] = fmt.Sprint(h + 1)
+			case 9:
+				m[9] = txh()
+			}
+			g.pair = [2]string{"ttc", []string{"", "nonce", "coin", "amount", "fee", "sender", "rchain", "receiver", "height", "txhash"}[k]}
+			g.do("hash " + strings.Join(m, " "))
+		case 2: // bex
+			f := []string{"bex", g.randAddr(), fmt.Sprint(n), fmt.Sprint(1 + r.Intn(50)), fmt.Sprint(h), txh(), "1000", g.randAddr()}
+			g.do("hash " + strings.Join(f, " "))
+			k := 1 + r.Intn(7)
+			m := append([]string{}, f...)
+			switch k {
+			case 1:
+				m[1] = g.randAddr()
+			case 2:
+				m[2] = fmt.Sprint(n + 1)
+			case 3:
+				m[3] = m[3] + "1"
+			case 4:
+				m[4] = fmt.Sprint(h + 1)
+			case 5:
+				m[5] = txh()
+			case 6:
+				m[6] = "1001"
+			case 7:
+				m[7] = g.randAddr()
+			}
+			g.pair = [2]string{"bex", []string{"", "coin", "nonce", "batchnonce", "height", "txhash", "feepaid", "feepayer"}[k]}
+			g.do("hash " + strings.Join(m, " "))
+		case 3:
+			if r.Intn(2) == 0 { // sse
+				a1, a2 := g.randAddr(), g.randAddr()
+				f := []string{"sse", fmt.Sprint(n), fmt.Sprint(1 + r.Intn(50)), fmt.Sprint(h), txh(), fmt.Sprintf("%s:%d,%s:%d", a1, 1+r.Intn(100), a2, 1+r.Intn(100))}
+				g.do("hash " + strings.Join(f, " "))
+				k := 1 + r.Intn(6)
+				m := append([]string{}, f...)
+				switch k {
+				case 1:
+					m[1] = fmt.Sprint(n + 1)
+				case 2:
+					m[2] = m[2] + "1"
+				case 3:
+					m[3] = fmt.Sprint(h + 1)
+				case 4:
+					m[4] = txh()
+				case 5:
+					m[5] = fmt.Sprintf("%s:%d,%s:%d", a1, 1+r.Intn(100), g.randAddr(), 1+r.Intn(100))
+				case 6:
+					m[5] = fmt.Sprintf("%s:%d,%s:%d", a1, 101+r.Intn(100), a2, 1+r.Intn(100))
+				}
+				g.pair = [2]string{"sse", []string{"", "nonce", "setnonce", "height", "txhash", "members-address", "members-power"}[k]}
+				g.do("hash " + strings.Join(m, " "))
+			} else {
+				// boundary shift on a minter chain: coin id digits move into the amount bytes
+				c1 := fmt.Sprint(1 + r.Intn(9))
+				d := 1 + r.Intn(9)
+				c2 := c1 + fmt.Sprint(d)
+				lo := byte(1 + r.Intn(250))
+				a1 := new(big.Int).SetBytes([]byte{byte(0x30 + d), lo})
+				a2 := new(big.Int).SetBytes([]byte{lo})
+				rc, snd, t := acc(), g.randAddr(), txh()
+				g.pair = [2]string{"sth", "boundary-shift(coin|amount)"}
+				g.do(fmt.Sprintf("hash sth %d %s %s %s %s %d %s", n, c1, a1, snd, rc, h, t))
+				g.do(fmt.Sprintf("hash sth %d %s %s %s %s %d %s", n, c2, a2, snd, rc, h, t))
+			}
+		}
+	}
 }
